@@ -411,28 +411,30 @@ class MultipartRelatedConsolidator(ConsolidatorBase):
             flags, width, precision, type_char = match.groups()
 
             # Handle the flags
+            sign_str = ""
+            if "+" in flags:
+                sign_str = "+"  # Show positive sign
+            elif " " in flags:
+                sign_str = " "  # Space before positive numbers
+
+            # Handle cases like "%6.6d", which should be converted to "{:06d}": printf pads the digits with
+            # zeros up to the precision, puts the sign (if any) in front of them and ignores the "0" flag
+            if precision:
+                num_digits = max(int(precision), int(width or 0))
+                return f"{{:{sign_str}0{num_digits + len(sign_str)}{type_char}}}"
+
             flag_str = ""
             if "-" in flags:
-                flag_str = "<"  # Left-align
-            if "+" in flags:
-                flag_str += "+"  # Show positive sign
-            elif " " in flags:
-                flag_str += " "  # Space before positive numbers
-            if "0" in flags:
+                flag_str = "<"  # Left-align (printf ignores "0" when "-" is given)
+            flag_str += sign_str
+            if "0" in flags and "-" not in flags:
                 flag_str += "0"  # Zero padding
 
-            # Build width and precision if they exist
+            # Build width if it exists
             width_str = width if width else ""
-            precision_str = f".{precision}" if precision else ""
-
-            # Handle cases like "%6.6d", which should be converted to "{:06d}"
-            if precision and width:
-                flag_str = "0"
-                precision_str = ""
-                width_str = str(max(precision, width))
 
             # Construct the new-style format specifier
-            return f"{{:{flag_str}{width_str}{precision_str}{type_char}}}"
+            return f"{{:{flag_str}{width_str}{type_char}}}"
 
         self.template = (
             self._sres_parameters["template"]
